@@ -210,8 +210,9 @@ class MyPyAstVisitor:
                 superclass_qname = superclass.fullname
                 superclass_name = superclass_qname.split(".")[-1]
 
-                # Check if the superclass name is an alias and find the real name
-                if superclass_name in self.aliases:
+                # Check if the superclass name is an alias and find the real name. If mypy resolved the expression to a
+                # class, its fullname is already the real name (another module may define a class of the same name).
+                if superclass_name in self.aliases and not isinstance(getattr(superclass, "node", None), mp_nodes.TypeInfo):
                     _, superclass_alias_qname = self._find_alias(superclass_name)
                     superclass_qname = superclass_alias_qname if superclass_alias_qname else superclass_qname
 
